@@ -251,8 +251,13 @@ def container_el(c: ir.Container, o: Opts):
     kids = []
     if c.long is not None:
         kids.append(E("LongDescription", text=c.long))
-    kids.append(E("EntryList", children=[E("ParameterRefEntry", {"parameterRef": n}) if k == "p"
-                                         else E("ContainerRefEntry", {"containerRef": n}) for k, n in c.entries]))
+    def entry_attrs(key, n, j):
+        a_ = {key: n}
+        if o.write_default() and (len(n) + j) % 2 == 0:
+            a_["shortDescription"] = f"entry {j} of {c.name}"      # a note on the ENTRY (legal XTCE): it does not make another parameter of it
+        return a_
+    kids.append(E("EntryList", children=[E("ParameterRefEntry", entry_attrs("parameterRef", n, j)) if k == "p"
+                                         else E("ContainerRefEntry", entry_attrs("containerRef", n, j)) for j, (k, n) in enumerate(c.entries)]))
     if c.base is not None:
         bk = []
         if c.criteria is not None:
